@@ -2,6 +2,7 @@
 //! See /verif/DESIGN.md §2.  Exit codes: 0 held, 1 violation, 2 harness error.
 
 mod gen;
+mod pack;
 mod plan;
 mod prng;
 mod run;
@@ -253,6 +254,10 @@ fn main() {
             std::process::exit(2);
         }
     };
+    if let Err(e) = pack::self_test() {
+        eprintln!("HARNESS-ERROR: {}", e);
+        std::process::exit(2);
+    }
     let code = std::panic::catch_unwind(std::panic::AssertUnwindSafe(|| match args.cmd.as_str() {
         "check" => cmd_check(&args),
         "replay" => cmd_replay(&args),
